@@ -973,7 +973,7 @@ def monitors(tr, endT, cfg=CFG):
                 if s[0] == h and s[1] == it[1] and s not in it[2] and reg_since(s, a - cfg["respBefore"], y_incl=a + cfg["respAfter"]):
                     ok = any(sd[2] == h and a - cfg["respBefore"] <= sd[0] <= a + cfg["respAfter"]
                              and (sd[4] is None or (it[3] and sd[4] == src))
-                             and pos_full(sd[5], s) for sd in sends)
+                             and (ptr_of(sd[5], s) or 0) > 0 for sd in sends)
                     if not ok:
                         bad["K4"].append(["query-unanswered", a, h, s, it[3]])
 
